@@ -9899,13 +9899,16 @@ struct PreReactWrapperT<TRegion, BottomUp> {
 			HeadState& headState = static_cast<HeadState&>(region);
 			SubStates& subStates = static_cast<SubStates&>(region);
 
-			const TaskStatus h =
+			HFSM2_IF_PLANS(region. subStatus(control) |=)
 				subStates.widePreReact(control, event, active);
-			HFSM2_IF_PLANS(region. subStatus(control) |= h);
 
-			if (!control._consumed)
-				HFSM2_IF_PLANS(region.headStatus(control) |=)
-					headState.deepPreReact(control, event);
+			// like the top-down order, report the head's own result to the enclosing region
+			TaskStatus h;
+
+			if (!control._consumed) {
+				h = headState.deepPreReact(control, event);
+				HFSM2_IF_PLANS(region.headStatus(control) |= h);
+			}
 
 			return h;
 		} else
@@ -9924,13 +9927,16 @@ struct PreReactWrapperT<TRegion, BottomUp> {
 			HeadState& headState = static_cast<HeadState&>(region);
 			SubStates& subStates = static_cast<SubStates&>(region);
 
-			const TaskStatus h =
+			HFSM2_IF_PLANS(region. subStatus(control) |=)
 				subStates.widePreReact(control, event);
-			HFSM2_IF_PLANS(region. subStatus(control) |= h);
 
-			if (!control._consumed)
-				HFSM2_IF_PLANS(region.headStatus(control) |=)
-					headState.deepPreReact(control, event);
+			// like the top-down order, report the head's own result to the enclosing region
+			TaskStatus h;
+
+			if (!control._consumed) {
+				h = headState.deepPreReact(control, event);
+				HFSM2_IF_PLANS(region.headStatus(control) |= h);
+			}
 
 			return h;
 		} else
@@ -10022,13 +10028,16 @@ struct ReactWrapperT<TRegion, BottomUp> {
 			HeadState& headState = static_cast<HeadState&>(region);
 			SubStates& subStates = static_cast<SubStates&>(region);
 
-			const TaskStatus h =
+			HFSM2_IF_PLANS(region. subStatus(control) |=)
 				subStates.wideReact(control, event, active);
-			HFSM2_IF_PLANS(region. subStatus(control) |= h);
 
-			if (!control._consumed)
-				HFSM2_IF_PLANS(region.headStatus(control) |=)
-					headState.deepReact(control, event);
+			// like the top-down order, report the head's own result to the enclosing region
+			TaskStatus h;
+
+			if (!control._consumed) {
+				h = headState.deepReact(control, event);
+				HFSM2_IF_PLANS(region.headStatus(control) |= h);
+			}
 
 			return h;
 		} else
@@ -10047,13 +10056,16 @@ struct ReactWrapperT<TRegion, BottomUp> {
 			HeadState& headState = static_cast<HeadState&>(region);
 			SubStates& subStates = static_cast<SubStates&>(region);
 
-			const TaskStatus h =
+			HFSM2_IF_PLANS(region. subStatus(control) |=)
 				subStates.wideReact(control, event);
-			HFSM2_IF_PLANS(region. subStatus(control) |= h);
 
-			if (!control._consumed)
-				HFSM2_IF_PLANS(region.headStatus(control) |=)
-					headState.deepReact(control, event);
+			// like the top-down order, report the head's own result to the enclosing region
+			TaskStatus h;
+
+			if (!control._consumed) {
+				h = headState.deepReact(control, event);
+				HFSM2_IF_PLANS(region.headStatus(control) |= h);
+			}
 
 			return h;
 		} else
@@ -10149,16 +10161,16 @@ struct PostReactWrapperT<TRegion, BottomUp> {
 			HeadState& headState = static_cast<HeadState&>(region);
 			SubStates& subStates = static_cast<SubStates&>(region);
 
-			HFSM2_IF_PLANS(region.headStatus(control) |=)
+			// like the top-down order, report the head's own result to the enclosing region
+			const TaskStatus h =
 				headState.deepPostReact(control, event);
+			HFSM2_IF_PLANS(region.headStatus(control) |= h);
 
-			if (control._consumed == false) {
-				const TaskStatus h =
+			if (control._consumed == false)
+				HFSM2_IF_PLANS(region. subStatus(control) |=)
 					subStates.widePostReact(control, event, active);
-				HFSM2_IF_PLANS(region. subStatus(control) |= h);
 
-				return h;
-			}
+			return h;
 		}
 
 		return TaskStatus{};
@@ -10176,16 +10188,16 @@ struct PostReactWrapperT<TRegion, BottomUp> {
 			HeadState& headState = static_cast<HeadState&>(region);
 			SubStates& subStates = static_cast<SubStates&>(region);
 
-			HFSM2_IF_PLANS(region.headStatus(control) |=)
+			// like the top-down order, report the head's own result to the enclosing region
+			const TaskStatus h =
 				headState.deepPostReact(control, event);
+			HFSM2_IF_PLANS(region.headStatus(control) |= h);
 
-			if (control._consumed == false) {
-				const TaskStatus h =
+			if (control._consumed == false)
+				HFSM2_IF_PLANS(region. subStatus(control) |=)
 					subStates.widePostReact(control, event);
-				HFSM2_IF_PLANS(region. subStatus(control) |= h);
 
-				return h;
-			}
+			return h;
 		}
 
 		return TaskStatus{};
